@@ -83,9 +83,14 @@ def generate(rng, tier='quick', stack=None, focus='general', **kw):
   # calls
   n_calls = rng.randint(3, 40 if not big else 90)
   methods = ['echo', 'echo', 'echo', 'poke', 'swap', 'risky', 'risky'] if scn['iface'] == 'sim' else ['hi']
+  # a third of the scenarios are "late-reply heavy": short timeouts, replies
+  # that arrive shortly after them, new calls arriving in between
+  late_heavy = rng.random() < 0.33
   ops = []
   t = 0.0 if cfg['open_timeout'] == 0 and rng.random() < 0.6 else rng.choice([0.0, 0.05, 0.3])
   spacing = rng.choice([0.001, 0.01, 0.05, 0.2, 1.0])
+  if late_heavy:
+    spacing = rng.choice([0.005, 0.02, 0.05])
   for i in range(n_calls):
     r = rng.random()
     if r < 0.4:
@@ -95,10 +100,14 @@ def generate(rng, tier='quick', stack=None, focus='general', **kw):
     else:
       t += rng.choice([RES, 2.5 * RES, 0.3, 1.5])
     T = rng.choice([None, None, 0.03, 0.05, 0.07, 0.1, 0.25, 1.0, 2.0])
+    if late_heavy:
+      T = rng.choice([0.03, 0.05, 0.07, 0.1])
     effT = T or default_timeout
     k = rng.random()
     svc = {}
-    if k < 0.30:
+    if late_heavy and k < 0.6:
+      svc['delay'] = round(effT + rng.choice([0.002, 0.01, 0.03, 0.08]), 4)
+    elif k < 0.30:
       # reply lands around the deadline / rounded deadline
       svc['near'] = rng.choice(['deadline', 'deadline', 'rounded'])
       svc['off'] = rng.choice([-1e-3, -1e-5, -1e-6, 0.0, 0.0, 1e-6, 1e-5, 1e-3])
@@ -124,7 +133,7 @@ def generate(rng, tier='quick', stack=None, focus='general', **kw):
     if stack == 'mux' and rng.random() < 0.3:
       svc['rctx'] = True
     if stack == 'mux' and cfg.get('adversarial') and rng.random() < 0.3:
-      svc['adversarial'] = rng.choice(['duplicate', 'unknown_tag', 'reserved_tag', 'tag0'])
+      svc['adversarial'] = rng.choice(['duplicate', 'unknown_tag', 'reserved_tag', 'tag0', 'alias', 'alias'])
       svc['adv_tag'] = rng.choice([1, 1, 5, 300, 70000])
     op = {'t': round(t, 6), 'op': 'call', 'id': 'c%d' % i, 'method': m,
           'payload': rng.choice(PAYLOADS), 'timeout': T, 'svc': svc,
